@@ -304,9 +304,6 @@ func (c *conn) sendTo(buf []byte, addr unix.Sockaddr) (n int, err error) {
 		}
 	}()
 
-	if c.remote == nil && !c.opened { // closed connected UDP socket of client, the fd is no longer ours
-		return 0, net.ErrClosed
-	}
 	if addr != nil {
 		return len(buf), unix.Sendto(c.fd, buf, 0, addr)
 	}
@@ -418,6 +415,9 @@ func (c *conn) Discard(n int) (int, error) {
 
 func (c *conn) Write(p []byte) (int, error) {
 	if c.isDatagram {
+		if c.remote == nil && !c.opened { // closed connected UDP socket of client, the fd is no longer ours
+			return 0, net.ErrClosed
+		}
 		return c.sendTo(p, nil)
 	}
 	return c.write(p)
@@ -431,6 +431,9 @@ func (c *conn) SendTo(p []byte, addr net.Addr) (int, error) {
 	sa := socket.NetAddrToSockaddr(addr)
 	if sa == nil {
 		return 0, errorx.ErrInvalidNetworkAddress
+	}
+	if c.remote == nil && !c.opened { // closed connected UDP socket of client, the fd is no longer ours
+		return 0, net.ErrClosed
 	}
 
 	return c.sendTo(p, sa)
